@@ -548,6 +548,25 @@ func TabCodeDocs() [][]byte {
 		}
 		rec("", 0)
 	}
+	// fenced code: a fence indented by 0–3 columns behind each container marker, then content lines in the same mixtures,
+	// with and without a final line ending and a closing fence
+	markers := []struct{ first, cont string }{{"", ""}, {"> ", "> "}, {">", ">"}, {"- ", "  "}, {"1. ", "   "}, {">\t", ">\t"}, {"> > ", "> > "}, {"- > ", "  > "}}
+	for _, m := range markers {
+		for k := 0; k <= 3; k++ {
+			for _, fence := range []string{"```", "~~~~"} {
+				open := m.first + strings.Repeat(" ", k) + fence + "\n"
+				for _, l1 := range append(append([]string{}, lines...), "x", " x", "") {
+					for _, l2 := range []string{"", "\ty", "   z"} {
+						body := m.cont + l1
+						if l2 != "" {
+							body += "\n" + m.cont + l2
+						}
+						out = append(out, []byte(open+body), []byte(open+body+"\n"), []byte(open+body+"\n"+m.cont+strings.Repeat(" ", k)+fence+"\n"))
+					}
+				}
+			}
+		}
+	}
 	return out
 }
 
